@@ -449,3 +449,29 @@ Print Assumptions coalesced_jump_keeps_the_language.
 Theorem coalesced_jump_is_well_formed : forall j1 j2, jump_wf j1 -> jump_wf j2 -> jump_wf (coalesce j1 j2).
 Proof. exact coalesce_wf. Qed.
 Print Assumptions coalesced_jump_is_well_formed.
+
+(* GREEDY (true since commit a09b6a08): the end reported for a start is at least the end
+   of EVERY match of the last piece that closes a chain of events from that start -- with
+   chain_reported_end_closes_a_chain: the largest closing end.  For every order of the
+   events a kernel produces. *)
+Theorem chain_greedy_reports_longest :
+  forall (pieces : list cpiece) (n : nat) (gp : nat -> cgap) (greedy : bool),
+  1 <= n -> length pieces = S n ->
+  (forall p, nth_error pieces 0 = Some p -> cp_link p = None) ->
+  (forall i p, nth_error pieces (S i) = Some p -> cp_link p = Some (i, gp i)) ->
+  (forall id p, nth_error pieces id = Some p -> cp_last p = Nat.eqb id n) ->
+  (forall id p, nth_error pieces id = Some p -> cp_greedy p = greedy) ->
+  forall evs, greedy = true -> ordered evs ->
+  (forall k s e, In (k, s, e) evs -> s <= e /\ k <= n) ->
+  forall y s0, In y (run_chain pieces evs) -> m_start y = N.of_nat s0 ->
+  forall s' e', left gp evs n s' e' s0 -> (N.of_nat e' <= m_end y)%N.
+Proof. exact chain_greedy_longest. Qed.
+Print Assumptions chain_greedy_reports_longest.
+
+(* end to end for a greedy split pattern fed with every end of every piece: one match per
+   start, a genuine one, the longest *)
+Theorem chain_greedy_end_choice : forall nc c d,
+  snd c <> [] -> (forall r, In r (chain_res c) -> 1 <= min_len r) ->
+  chain_end_choice nc true c d (scan_chain_all_ends nc true false c d).
+Proof. exact chain_greedy_end_choice_all_ends. Qed.
+Print Assumptions chain_greedy_end_choice.
